@@ -8,6 +8,26 @@ HERE = os.path.dirname(os.path.dirname(os.path.abspath(__file__)))
 
 # id -> (level, technique, text, note, design_ref)
 CHECKS = {
+    'C01': ('exploration',
+            'Hypothesis generation of event matrices x FCS layouts encoded by an independent writer; round-trip '
+            'oracle (decoded == written, masked by the declared range); refusal of unsupported layouts',
+            'Generated files over version x datatype x byte order (both spellings) x per-parameter widths 8..64 '
+            '(uniform and mixed) x range kinds x HEADER/TEXT-only offsets x end conventions x random padding x '
+            'delimiters, 0..40 events, are loaded through FCSFile and FCSData and compared cell by cell (Python '
+            'ints / IEEE bit patterns) with what was written; unsupported layouts must raise.',
+            'Trusted: pbt/fcsgen.py. Non-power-of-two ranges restricted to where ceil(log2 R) is exact.',
+            'DESIGN.md section 4, C01'),
+    'C16': ('fault_enumeration',
+            'Hypothesis generation of small files; per file exhaustive truncation at every byte plus enumerated '
+            'single-field corruptions; oracle: outcome in {exception, identical to intact}',
+            'For each generated file every truncation offset (incl. the empty file) and ~40-60 single-field '
+            'corruptions ($TOT, $PAR, $PnB, HEADER and TEXT offsets to v-1, v+1, v/2, 2v, 0, 99999) are loaded; '
+            'anything other than an exception or exactly the intact events and keywords is a violation. '
+            'Corruptions indistinguishable from the tolerated one-past convention are skipped and counted. One '
+            'open finding (C16-KF1, HEADER text_end beyond the true end).',
+            'Trusted: pbt/fcsgen.py; ambiguity rule for the one-past tolerance; any exception type counts as '
+            'refusal.',
+            'DESIGN.md section 4, C16'),
     'C03': ('exploration',
             'Hypothesis generation of samples/arrays x amplifier settings x channel requests x overrides; '
             'reference amplifier law; metamorphic equivalence of batch / sequential / permuted / by-name / '
